@@ -90,6 +90,11 @@ def touch_name(n, root=None, deep=True):
             d['defined_names'] = [name_core(x, root) for x in n.defined_names()][:20]
         if hasattr(n, 'is_definition'):
             d['is_definition'] = n.is_definition()
+    if hasattr(n, 'index') and hasattr(n, 'bracket_start'):
+        d['index'] = n.index
+        d['bracket_start'] = n.bracket_start
+        d['sig_params'] = [[p.name, str(p.kind), p.to_string()] for p in n.params]
+        d['sig_to_string'] = n.to_string()
     if hasattr(n, 'complete'):
         d['complete'] = n.complete
         d['name_with_symbols'] = n.name_with_symbols
